@@ -595,41 +595,34 @@ Record out := mkOut { o_bufio : bool; o_d : dest }.
 
 Definition csv_buf_size : Z := 4096.   (* bufio default size used by csv.NewWriter *)
 
-(* interp.writeCSV(output, fields).
-   - output is a *bufio.Writer: csv.NewWriter(output) uses it directly when it holds at least
-     4096 bytes; a smaller one is wrapped by bufio.NewWriter in a private 4096-byte Writer
-     that nobody flushes: a row that fits it is lost ([Unmod]: a longer row reaches the
-     destination in part, byte-exactly unmodelled); the lone empty field is written by
-     writeOutput to output itself;
-   - otherwise output is wrapped in the scratch Writer p.csvOutput (4096 bytes), the row is
-     written to it and it is flushed before returning. *)
-Definition write_csv_to (sep : Z) (crlf : bool) (o : out) (fs : list bytes) : res out :=
-  let row := write_record sep crlf fs in
-  if o_bufio o
-  then
-    match o_d o with
-    | DBuf size _ _ =>
-        if csv_buf_size <=? size then Ok (mkOut true (d_write (o_d o) row))
-        else if lone_empty fs then Ok (mkOut true (d_write (o_d o) row))
-        else if zlen row <=? csv_buf_size then Ok o
-        else Unmod
-    | DRaw _ => Unmod
-    end
-  else
-    match d_flush (d_write (DBuf csv_buf_size [] (o_d o)) row) with
-    | DBuf _ _ under => Ok (mkOut false under)
-    | DRaw _ => Unmod
-    end.
-
-Fixpoint write_rows_to (sep : Z) (crlf : bool) (o : out) (rows : list (list bytes)) : res out :=
-  match rows with
-  | [] => Ok o
-  | fs :: rows' => do o' <- write_csv_to sep crlf o fs; write_rows_to sep crlf o' rows'
+(* writing through the scratch Writer p.csvOutput (4096 bytes) wrapped around the destination,
+   flushed before writeCSV returns *)
+Definition wrap_write (d : dest) (row : bytes) : dest :=
+  match d_flush (d_write (DBuf csv_buf_size [] d) row) with
+  | DBuf _ _ under => under
+  | DRaw got => DRaw got
   end.
 
+(* csv.NewWriter(output) writes into output itself only when it is a *bufio.Writer of at
+   least 4096 bytes *)
+Definition direct (o : out) : bool :=
+  o_bufio o && match o_d o with DBuf size _ _ => csv_buf_size <=? size | DRaw _ => false end.
+
+(* interp.writeCSV(output, fields): a *bufio.Writer with Size() >= 4096 is written to
+   directly; any other writer (also a smaller *bufio.Writer) is wrapped in the scratch Writer,
+   which is flushed before returning.  (The lone empty field goes by writeOutput to the same
+   writer as a row written by csv.Writer would.) *)
+Definition write_csv_to (sep : Z) (crlf : bool) (o : out) (fs : list bytes) : out :=
+  let row := write_record sep crlf fs in
+  if direct o then mkOut (o_bufio o) (d_write (o_d o) row)
+  else mkOut (o_bufio o) (wrap_write (o_d o) row).
+
+Definition write_rows_to (sep : Z) (crlf : bool) (o : out) (rows : list (list bytes)) : out :=
+  fold_left (write_csv_to sep crlf) rows o.
+
 (* the bytes at the destination after the rows were printed and the run ended *)
-Definition emit_rows (sep : Z) (crlf : bool) (o : out) (rows : list (list bytes)) : res bytes :=
-  do o' <- write_rows_to sep crlf o rows; Ok (delivered (d_close (o_d o'))).
+Definition emit_rows (sep : Z) (crlf : bool) (o : out) (rows : list (list bytes)) : bytes :=
+  delivered (d_close (o_d (write_rows_to sep crlf o rows))).
 
 (* ------------------------------------------------------------------------- *)
 (* Specification: an RFC 4180 reader with lenient quotes, written from the
